@@ -67,7 +67,9 @@ def pad_ragged_arrays_to_dense_array(arrays: list[ArrayType], pad_value: float =
     :return: A dense array of the arrays
     """
     max_sizes = np.max([np.array(array.shape) for array in arrays], axis=0)
-    result = pad_value * np.ones((len(arrays), *max_sizes), dtype=arrays[0].dtype)
+    result = pad_value * np.ones(
+        (len(arrays), *max_sizes), dtype=np.result_type(*arrays, pad_value)
+    )
     for i, array in enumerate(arrays):
         result[i, : array.shape[0], : array.shape[1]] = array
     return result
